@@ -65,6 +65,14 @@ def handle : List Sexp → Option String
       let tags := triples n a
       let sub := a.drop (3 * n)
       some (out (GenK.wrapTags (indefOk == "1") (ine == "1") tags (dm == "1") sub (ic == "1") (io == "1")))
+  | .atom "KINTDEC" :: args => do
+      let a ← intArgs args
+      some (match GenK.intDecode a with
+        | .ok l => s!"ok {l}"
+        | .error e => "err " ++ errName e)
+  | .atom "PYFROMBYTES" :: .atom sg :: args => do
+      let a ← intArgs args
+      some s!"ok {Py.fromBytes a (sg == "1")}"
   | .atom "KOIDDEC" :: args => do
       let a ← intArgs args
       some (out (GenK.oidDecode a))
